@@ -423,19 +423,19 @@ Fixpoint read_items (fuel : nat) (s : string) : option (list A * string) :=
       end
   end.
 End Items.
-(* (row),(row),...,(row) up to the end of the text *)
-Fixpoint read_rows (fuel : nat) (s : string) : option (list (list lit)) :=
+(* (row),(row),...,(row) up to the end of the text; [fi] bounds the width of a row, [fuel] the number of rows *)
+Fixpoint read_rows (fi fuel : nat) (s : string) : option (list (list lit)) :=
   match fuel with
   | O => None
   | S f =>
       match s with
       | String a r =>
           if Ascii.eqb a "("%char then
-            match read_items read_lit (S f) r with
+            match read_items read_lit fi r with
             | Some (row, EmptyString) => Some [row]
             | Some (row, String b r2) =>
                 if Ascii.eqb b ","%char then
-                  match read_rows f r2 with Some rows => Some (row :: rows) | None => None end
+                  match read_rows fi f r2 with Some rows => Some (row :: rows) | None => None end
                 else None
             | None => None
             end
@@ -481,7 +481,7 @@ Definition read_where (s : string) : option (option string) :=
   end.
 Definition after_cols (fuel : nat) (m : imode) (tbl : string) (cols : list string) (s : string) : option dml_ast :=
   match strip_prefix " VALUES " s with
-  | Some r => match read_rows fuel r with Some rows => Some (AInsert m tbl cols rows) | None => None end
+  | Some r => match read_rows fuel fuel r with Some rows => Some (AInsert m tbl cols rows) | None => None end
   | None =>
       match strip_prefix " " s with
       | Some body => match strip_prefix "SELECT " body with
